@@ -1,20 +1,21 @@
 # C30: bluetoe::details::ring under a deterministic two-context scheduler (lib/sched.hpp), needs hook 2 (ring.hpp index type)
 target('c30_ring', 'engines/comp/c30_ring.cpp',
-       quick=dict(cases=100000, size=60),
-       thorough=dict(cases=4000000, size=80))
+       quick=dict(cases=160000, size=60),
+       thorough=dict(cases=2000000, size=80))
 # exhaustive enumeration of complete schedule trees; runs in the thorough tier only (quick: 0 cases).
-# parts must equal the number of worker processes; `cases` is the number of trees of dfs_space() (1962), so every
+# parts must equal the number of worker processes; `cases` is the number of trees of dfs_space() (2144), so every
 # worker gets exactly its share. The evidence shows one class dfs-part-<k>-of-8-complete per finished share.
 target('c30_ring_dfs', 'engines/comp/c30_ring.cpp',
        quick=dict(cases=0),
-       thorough=dict(cases=1962, size=10, procs=8, opts={'mode': 'dfs', 'parts': 8}))
+       thorough=dict(cases=2144, size=10, procs=8, opts={'mode': 'dfs', 'parts': 8}))
 prop('C30', ['c30_ring', 'c30_ring_dfs'], 'comp',
      rule='a case = capacity S in 1..4, a start state (indices rotated by 0..S+1 push/pop pairs, 0..S elements in the ring), 1..4 try_push, '
           '1..4 try_pop and a schedule (choice at every load/store of an index and before every word of the two-word element copy) for free '
           'interleaving or interrupt nesting in either direction; non-trivial = a context switch happens between an element copy and the index '
           'store of the same operation; distinct = distinct serialised (programs, schedule). Target c30_ring_dfs (thorough only) does not sample: '
-          'it enumerates depth first EVERY schedule of every tree of a fixed sub-space (nesting: S 1..4, all start states, up to 4+4 operations; '
-          'free interleaving: S 1..2, all start states, up to 2+2 operations unbounded and up to 3+3 operations with at most 3 preemptions); there '
+          'it enumerates depth first EVERY schedule of every tree of a fixed sub-space (nesting in both directions: S 1..4, all start states, '
+          'up to 4+4 operations; free interleaving: S 1..2, all start states, all schedules while pushes+pops <= 5, beyond that all schedules with '
+          'at most 4 preemptions up to 3+3 operations and at most 3 preemptions up to 4+4 operations); there '
           'a case is one tree, classes dfs-schedules-executed / dfs-trees-completed / dfs-part-k-of-8-complete count the work',
      technique='deterministic schedule exploration (rapidcheck generated schedules + bounded exhaustive depth-first enumeration) with a linearizability oracle against a bounded FIFO',
      level_text='every generated or enumerated interleaving is executed on the real ring with an instrumented index type and a two-word element whose '
